@@ -191,7 +191,7 @@ def gen_profile():
 
 
 PROPS = {
-    "C10": C10("C10", 1, [10, 51, 41], profile=gen_profile(),
+    "C10": C10("C10", 1, [10, 51, 41], oracles=["reqs_first", "window"], profile=gen_profile(),
                rule="C10: a nested scheduler starts under the job rules (chk01, chk_nostart, parent window at level 1) and "
                     "its verdict / bubbling exception identity is classified by chk_end. Last sentence of the property: for "
                     "every generated tree that contains a critical nested scheduler without window, timeout or forever job "
